@@ -1,4 +1,5 @@
 import EupsModel.Lemmas.SetupInverse
+import EupsModel.Lemmas.SetupClear
 /-! C02 — unsetup is the inverse of setup; a failing request leaves the environment as it found it.
 Model: `EupsModel/Model/Setup.lean` (shared with C01, C04). -/
 namespace EupsModel.C02
@@ -201,6 +202,93 @@ theorem C02_inverse_single (db : Db) (rank : Name → Nat) (hdag : NameDag db ra
     (by intro n d x h; simp [St.init, aget] at h) hwell hres h1
   exact setup_false_unsets (r.cfg db) fuel2 0 false r.vro r.name none none (St.init s1.env) s2 hwell1 h2
 
+private theorem tableOf_mem (cfg : Cfg) (p : Name) (w : Ver) (a : Act) (h : a ∈ tableOf cfg (p, w)) :
+    ∃ d ∈ cfg.db.decls, d.name = p ∧ ∃ g, (g, a) ∈ d.table := by
+  unfold tableOf at h
+  cases hl : cfg.db.lookup (p, w) with
+  | none => rw [hl] at h; cases h
+  | some d =>
+    rw [hl] at h
+    obtain ⟨hd, hn, _⟩ := lookup_some cfg.db (p, w) d hl
+    exact ⟨d, hd, hn, mem_actions d cfg.exact a h⟩
+
+private theorem reach_rank_le (db : Db) (rank : Name → Nat) (hdag : NameDag db rank) (top : Name) :
+    ∀ k n, Within db top k n → rank n ≤ rank top := by
+  intro k n hw
+  induction hw with
+  | root => exact Nat.le_refl _
+  | step _ hd hn hg ih =>
+    have := hdag _ hd _ _ _ _ _ _ hg
+    rw [hn] at this
+    omega
+
+/-- chains and diamonds: when no dependency line of the closure carries `-j`, every name of the closure has one declared
+version and `max_depth` is not set, the proviso of `C02_inverse_partial` holds — optional dependencies, failing ones
+included, and any sharing of dependencies (diamonds) are inside the claim.  (`-j` together with a version conflict is
+known finding D33; version conflicts without `-j` and `max_depth` are not covered by this theorem.) -/
+theorem C02_inverse_diamond_partial (db : Db) (rank : Name → Nat) (hdag : NameDag db rank) (hown : OwnTables db)
+    (fuel1 fuel2 : Nat) (r : Request) (e0 : Setup.Env) (s1 s2 : St)
+    (hmd : r.maxDepth = none) (hnj : NoJust db (Reach db r.name)) (hone : OneVersion db (Reach db r.name))
+    (hdir : DirOK db e0) (hwell : WellOwned (r.cfg db) e0) (hres : NoResidue Empty e0) (hfresh : Fresh db r e0)
+    (h1 : runSetup db fuel1 r e0 = .ok s1) (h2 : runUnsetup db fuel2 r s1.env = .ok s2) : s2.env.approx e0 := by
+  refine C02_inverse_partial db rank hdag hown fuel1 fuel2 r e0 s1 s2 hwell hres hfresh h1 h2 ?_
+  let cfg := r.cfg db
+  let S : Name → Prop := Reach db r.name
+  have hcl : Closed cfg.db S := fun d hd ⟨k, hk⟩ g n o j v x hg => ⟨k + 1, Within.step hk hd rfl hg⟩
+  have hS0 : S r.name := ⟨0, Within.root⟩
+  have ha : ∀ e : Setup.Env, AlreadyOK cfg.db (St.init e).already := by
+    intro e n d x h; simp [St.init, aget] at h
+  -- forward: support and declared records
+  have hdecl0 : RecsDeclared cfg.db e0 := fun n v hr => (hdir n v hr).1
+  have hsp0 : setupProd cfg.db e0 r.name = none := by
+    unfold setupProd; rw [hfresh.recs r.name hS0]
+  have hsupp0 : Supp cfg S r.name e0 := by
+    intro m v hm hr; rw [hfresh.recs m hm] at hr; cases hr
+  obtain ⟨hsupp1, _, hdecl1⟩ := setup_supp cfg rank hdag S r.name hcl hone fuel1 0 false r.vro r.name r.version none
+    (St.init e0) s1 hS0 (Or.inl rfl) (Or.inr hsp0) (ha e0) hdecl0 hsupp0 h1
+  -- unsetup: what loses its record takes its dependencies along
+  obtain ⟨_, hwell1⟩ := (setup_recOK cfg rank hdag fuel1).spec true 0 false r.vro r.name r.version none (St.init e0) s1
+    (ha e0) hwell hres h1
+  have hclear := setup_false_clear cfg S hmd hcl hnj fuel2 0 r.vro r.name none none (St.init s1.env) s2 hS0 hwell1 hdecl1 h2
+  obtain ⟨_, hsub⟩ := setup_false_spec cfg fuel2 (fun _ => True) 0 false r.vro r.name none none (St.init s1.env) s2 hwell1
+    (noResidue_true _) h2
+  have htop : s2.env.rec? r.name = none :=
+    setup_false_unsets cfg fuel2 0 false r.vro r.name none none (St.init s1.env) s2 hwell1 h2
+  -- by induction on the distance of the rank from the top's
+  have key : ∀ k m, S m → rank r.name - rank m ≤ k → s2.env.rec? m = none := by
+    intro k
+    induction k with
+    | zero =>
+      intro m hm hk
+      cases hc : s2.env.rec? m with
+      | none => rfl
+      | some v =>
+        exfalso
+        rcases hsupp1 m v hm (hsub.recs m v hc) with rfl | ⟨p, w, hp, hpw, o, j, x, y, hline⟩
+        · rw [htop] at hc; cases hc
+        · obtain ⟨dp, hdp, hname, g, hg⟩ := tableOf_mem cfg p w _ hline
+          have h1 := hdag dp hdp g m o j x y hg
+          obtain ⟨kp, hkp⟩ := hp
+          have h2 := reach_rank_le db rank hdag r.name kp p hkp
+          rw [hname] at h1
+          omega
+    | succ k ih =>
+      intro m hm hk
+      cases hc : s2.env.rec? m with
+      | none => rfl
+      | some v =>
+        exfalso
+        rcases hsupp1 m v hm (hsub.recs m v hc) with rfl | ⟨p, w, hp, hpw, o, j, x, y, hline⟩
+        · rw [htop] at hc; cases hc
+        · obtain ⟨dp, hdp, hname, g, hg⟩ := tableOf_mem cfg p w _ hline
+          have h1 := hdag dp hdp g m o j x y hg
+          rw [hname] at h1
+          have hpnone := ih p hp (by omega)
+          have := hclear p w hp hpw hpnone m o j x y hline
+          rw [this] at hc; cases hc
+  intro n hn
+  exact key (rank r.name) n hn (by omega)
+
 /-- the hypotheses are satisfiable and the conclusion is not vacuous: `dbA` with a foreign-only `PATH` -/
 example : OwnTables dbA ∧ NameDag dbA (fun _ => 0) ∧
     Fresh dbA reqA { Setup.Env.empty with paths := [(PATH, [.foreign [47, 117]])] } := by
@@ -210,5 +298,36 @@ example : OwnTables dbA ∧ NameDag dbA (fun _ => 0) ∧
     by_cases hv : var = PATH
     · subst hv; simp [Setup.Env.pathOf, aget] at h
     · simp [Setup.Env.pathOf, aget, Ne.symm hv] at h
+
+/-- non-vacuity of `C02_inverse_diamond_partial`: the diamond `t → a → c`, `t → b → c` (one version each, `c` optional
+from `b`) satisfies the hypotheses, the two requests succeed from a `PATH` holding a foreign element, and the
+environment comes back -/
+def nT : Name := [116]
+def nB : Name := [98]
+def nC : Name := [99]
+def dbDia : Db :=
+  { decls := [
+      ⟨nT, v1, [1], [(.always, .dep nA false false none none), (.always, .prepend PATH (.own [1]) false),
+                     (.always, .dep nB false false none none)]⟩,
+      ⟨nA, v1, [2], [(.always, .prepend PATH (.own [1]) false), (.always, .dep nC false false none none)]⟩,
+      ⟨nB, v1, [3], [(.always, .dep nC true false none none), (.always, .set V (.own [])), (.always, .prepend PATH (.own [1]) true)]⟩,
+      ⟨nC, v1, [4], [(.always, .prepend PATH (.own [1]) false)]⟩ ],
+    tags := [(tagCurrent, nT, v1), (tagCurrent, nA, v1), (tagCurrent, nB, v1), (tagCurrent, nC, v1)] }
+def reqT : Request := ⟨nT, none, false, none, false, []⟩
+def priorDia : Setup.Env := { Setup.Env.empty with paths := [(PATH, [.foreign [47, 117]])] }
+
+/-- records after the setup step (none when it does not succeed) -/
+def recsAfterSetup (db : Db) (r : Request) (e : Setup.Env) : Option (List (Name × Ver)) :=
+  match runSetup db 10 r e with
+  | .ok s => some s.env.recs
+  | _ => none
+
+example : OwnTables dbDia ∧ NameDag dbDia (fun n => if n = nT then 3 else if n = nC then 1 else 2) ∧
+    NoJust dbDia (Reach dbDia reqT.name) ∧ OneVersion dbDia (Reach dbDia reqT.name) ∧
+    recsAfterSetup dbDia reqT priorDia = some [(nB, v1), (nC, v1), (nA, v1), (nT, v1)] ∧
+    roundTrip dbDia reqT priorDia = some ⟨[], [], [(PATH, [.foreign [47, 117]])], []⟩ :=
+  ⟨ownTables_of_check _ (by decide +kernel), nameDag_of_check _ _ (by decide +kernel),
+   noJust_of_check _ _ (by decide +kernel), oneVersion_of_check _ _ (by decide +kernel),
+   by decide +kernel, by decide +kernel⟩
 
 end EupsModel.C02
